@@ -14,7 +14,8 @@ PARSE = 'biom/parse.py'
 
 SINK_RULE = {'CTOR': 'AX-CTOR', 'KERNEL': 'AX-KERNEL', 'STORE': 'AX-STORE',
              'IDAPI': 'AX-IDAPI', 'MATOP': 'AX-MATOP', 'SHAPE': 'AX-SHAPE',
-             'OWNER': 'AX-OWNER', 'REINDEX': 'OR-REINDEX', 'RET': 'AX-RET'}
+             'OWNER': 'AX-OWNER', 'REINDEX': 'OR-REINDEX', 'RET': 'AX-RET',
+             'TRUTH': 'AX-TRUTH', 'MAJOR': 'AX-MAJOR', 'DDICT': 'EF-DDICT'}
 
 MODE_PARAMS = {'one_to_many': [True, False], 'by_id': [True, False],
                'dense': [True, False]}
@@ -167,6 +168,11 @@ def emit(col, repo, funcs=None, kinds=None, exclude_funcs=()):
             continue
         if kinds is not None and m['kind'] not in kinds:
             continue
+        if m['kind'] == 'DDICT':
+            from .rules_effects import MUTATORS
+            if not m['q'].startswith('Table.') or \
+                    m['q'].split('.', 1)[1] in MUTATORS:
+                continue
         rule = SINK_RULE[m['kind']]
         role = '%s#%d:%s' % (m['kind'].lower(), m['ordinal'], m['role'])
         n += 1
@@ -446,6 +452,12 @@ RULE_TEXT = {
                 'table and complementary axes',
     'AX-RET': 'axis accessors return values of the axis they were asked for',
     'AX-PRIM': rule_axis_primitives.__doc__,
+    'AX-TRUTH': 'a position on an axis (which may be 0) is never used as a '
+                'truth value',
+    'AX-MAJOR': 'compressed-storage arrays (indptr / indices) of a table\'s '
+                'matrix are read only after its layout has been fixed',
+    'EF-DDICT': 'per-id metadata mappings are defaultdicts: reads use .get, '
+                'md[key] would insert the key',
     'AX-FWD': rule_ax_fwd.__doc__,
     'OR-REINDEX': 'a non-None index argument derives from the axis it is '
                   'passed for',
